@@ -448,6 +448,13 @@ def judge(ctx, scenarios, rows, tag, maxprop, stats):
             continue
         if dups:
             stats["dup_scenarios"] = stats.get("dup_scenarios", 0) + 1
+            if sid not in accepted and sid not in rejected:
+                # not reached by the batch validation (stalled, or the rejection budget ran out)
+                ok1, bad1, _, _ = tlc_trace(ctx, [(sc, row["events"])], "%s_one%d" % (tag, stats["dup_scenarios"]), maxprop)
+                if ok1:
+                    accepted.add(sid)
+                else:
+                    rejected[sid] = (bad1[1], bad1[2])
             sig, detail = dup_signature(sc, row, dups, sid in accepted, rejected.get(sid))
             what = "two nodes hold node key %d (%s and %s) in scenario %s: %s" % (
                 dups[0][2], dups[0][0], dups[0][1], sid, detail)
@@ -482,6 +489,10 @@ def reproduce(ctx, sc, sig, what, row, still, idx=None, why=None):
     if sig in [v[0] for v in ctx.violations]:
         ctx.report(sig, what, {})
         return
+    for k in ctx._known:
+        if k.get("status") == "known" and __import__("re").search(k["signature"], sig) and k["id"] in [h[0] for h in ctx.known_hits]:
+            ctx.known_count = getattr(ctx, "known_count", 0) + 1
+            return
     rows2, _ = run_harness(ctx, [sc], "repro%d" % (len(ctx.violations) + len(ctx.known_hits)))
     r2 = rows2[0]
     again = False
@@ -501,7 +512,19 @@ def reproduce(ctx, sc, sig, what, row, still, idx=None, why=None):
 
 
 # ------------------------------------------------------------------ main
+def extra_known(ctx):
+    """Development aid: VERIF_KNOWN_EXTRA=<json file with a "findings" list> is consulted in addition to
+    known_findings.json (builders do not edit that file)."""
+    p = os.environ.get("VERIF_KNOWN_EXTRA")
+    if p and os.path.exists(p):
+        with open(p) as f:
+            for e in json.load(f).get("findings", []):
+                if e.get("property") == ctx.pid and e not in ctx._known:
+                    ctx._known.append(e)
+
+
 def run(ctx):
+    extra_known(ctx)
     thorough = ctx.tier == "thorough"
     rnd = random.Random(ctx.seed)
     states = trans = 0
@@ -509,10 +532,11 @@ def run(ctx):
     stats = {}
     notes = ctx.notes
 
-    def mc(name, conf, maxprop, faults, joins, gossip, expect_dup, workers=6, pledges=(101, 102), attempts=1):
+    def mc(name, conf, maxprop, faults, joins, gossip, expect_dup, workers=6, pledges=(101, 102), attempts=1, maxlearn=2):
         nonlocal states, trans
         r = ctx.tlc(AREA, "PledgeMC", name + ".cfg",
-                    files={name + ".cfg": cfg(conf, "SpecR", maxprop, faults, joins, gossip, pledges=pledges, attempts=attempts)},
+                    files={name + ".cfg": cfg(conf, "SpecR", maxprop, faults, joins, gossip, pledges=pledges, attempts=attempts,
+                                              maxlearn=maxlearn)},
                     tag="mc_" + name, workers=workers, timeout=3000, expect_violation=True)
         states += r.distinct
         trans += r.generated
@@ -529,7 +553,7 @@ def run(ctx):
 
     # 1. design level ------------------------------------------------------------------
     mc("same3_f", "same3", 3 if thorough else 2, '{"lost", "fail"}', False, False, False)
-    mc("same3_j", "same3", 3 if thorough else 2, "{}", True, True, False)
+    mc("same3_j", "same3", 2, "{}", True, True, False, maxlearn=2 if thorough else 1)
     mc("stale3", "stale3", 2, "{}", False, False, True, workers=2)
     mc("stale5", "stale5", 3, "{}", False, False, True, workers=2)
 
@@ -559,8 +583,10 @@ def run(ctx):
     d5[0]["id"] = "stale5_directed"
     directed = [d5[0], story5()]
     # 2b. one schedule per distinct duplicate-key state of the stale configurations
-    for name, conf, mp in (("dup3", "stale3", 2), ("dup3b", "stale3b", 2)) + ((("dup5f", "stale5free", 3),) if thorough else ()):
-        ds, _ = gen(name, conf, mp, "{}", conf != "stale5free", conf != "stale5free", "DupPrint", True, 80, limit=150 if thorough else 40)
+    for name, conf, mp, jg in (("dup3", "stale3", 2, False),) + ((("dup3j", "stale3", 2, True), ("dup5f", "stale5free", 3, False)) if thorough else ()):
+        ds, _ = gen(name, conf, mp, "{}", jg, jg, "DupPrint", True, 80, limit=150 if thorough else 40)
+        if not ds:
+            raise vlib.Inconclusive("no duplicate-key schedule generated for %s" % name)
         directed += ds
     # 2c. one schedule per distinct terminal state of the small identical-view configuration
     term, r = gen("term3", "same3", 2, '{"lost", "fail"}', False, False, "Emit", True, 80,
@@ -573,7 +599,7 @@ def run(ctx):
     for name, conf, share in (("sim_same3", "same3", 0.5), ("sim_stale3", "stale3", 0.2), ("sim_stale3b", "stale3b", 0.15),
                               ("sim_stale5", "stale5free", 0.15)):
         # (the simulator also evaluates Emit on the siblings of the last step: more schedules than num)
-        ss, _ = gen(name, conf, 3, ALL_FAULTS, True, True, "Emit", False, 48, simulate="num=%d" % max(10, int(nsim * share)),
+        ss, _ = gen(name, conf, 3, ALL_FAULTS, True, True, "Emit", False, 48, simulate="num=%d" % max(6, int(nsim * share / 6)),
                     pledges=(101, 102, 103), attempts=2, limit=max(10, int(nsim * share)))
         if not ss:
             raise vlib.Inconclusive("no simulated schedules (%s)" % name)
@@ -589,9 +615,8 @@ def run(ctx):
     rows_f, walls["free"] = run_harness(ctx, free, "free", race=thorough)
 
     # the directed 5-member schedules must be executed to the end for their verdict to mean anything
-    for sc, row in list(zip(directed, rows_d))[:2]:
-        if row.get("stalled") or row.get("diverged"):
-            raise vlib.Inconclusive("directed scenario %s did not run to the end: %s" % (sc["id"], row.get("stalled") or row.get("diverged")))
+    incomplete = ["%s: %s" % (sc["id"], row.get("stalled") or row.get("diverged"))
+                  for sc, row in list(zip(directed, rows_d))[:2] if row.get("stalled") or row.get("diverged")]
 
     # 4. judge -------------------------------------------------------------------------
     drift, diverged, stalled = [], [], []
@@ -606,6 +631,8 @@ def run(ctx):
     total = len(directed) + len(scenarios) + len(free)
 
     if not ctx.violations:
+        if incomplete:
+            raise vlib.Inconclusive("directed scenario did not run to the end: %s" % incomplete[0])
         if stalled:
             raise vlib.Inconclusive("harness stalled in %d scenarios, e.g. %s" % (len(stalled), stalled[0]))
         if drift:
@@ -647,6 +674,7 @@ def run(ctx):
 
 
 def replay(ctx, path):
+    extra_known(ctx)
     with open(path) as f:
         obj = json.load(f)
     sc = obj["scenario"]
@@ -665,3 +693,40 @@ def replay(ctx, path):
         return 1 if kind == "prop" else 2
     print("replay: scenario passes on the current tree (responses %s)" % json.dumps(row["responses"], sort_keys=True))
     return 0
+
+
+def selftest(ctx):
+    """Binding self-test: the trace of the real story5 run is accepted; with one observation corrupted
+    (a verdict flipped, a quorum member dropped, a retry key not incremented, an approval event
+    removed, a foreign cluster key) PledgeTrace.tla must reject it."""
+    import copy
+    sc = story5()
+    rows, _ = run_harness(ctx, [sc], "selftest")
+    evs = rows[0]["events"]
+    ok, bad, _, _ = tlc_trace(ctx, [(sc, evs)], "st_base", 3)
+    if not ok:
+        print("selftest: base trace rejected at %s" % (bad,))
+        return 1
+    failures = 0
+
+    def corrupt(name, fn):
+        nonlocal failures
+        e2 = copy.deepcopy(evs)
+        fn(e2)
+        ok2, bad2, _, _ = tlc_trace(ctx, [(sc, e2)], "st_" + name, 3)
+        print("selftest %-18s %s" % (name, "rejected at event %d (%s)" % (bad2[1], bad2[2]) if not ok2 else "ACCEPTED (bad)"))
+        if ok2:
+            failures += 1
+
+    def idx(pred, nth=0):
+        hits = [i for i, e in enumerate(evs) if pred(e)]
+        return hits[nth]
+
+    corrupt("verdict_flip", lambda t: t[idx(lambda e: e["ev"] == "deliver" and not e["ok"])].update(ok=True))
+    corrupt("quorum_minority", lambda t: t[idx(lambda e: e["ev"] == "propose" and len(e["q"]) == 3)].update(q=[1, 4]))
+    corrupt("retry_same_key", lambda t: t[idx(lambda e: e["ev"] == "propose" and e["r"] == 2)].update(k=4))
+    corrupt("approval_dropped", lambda t: t.pop(idx(lambda e: e["ev"] == "deliver" and e["p"] == 101, 2)))
+    corrupt("foreign_cluster_key", lambda t: t[idx(lambda e: e["ev"] == "admitted")].update(ck="other"))
+    corrupt("admitted_other_key", lambda t: t[idx(lambda e: e["ev"] == "admitted")].update(k=9))
+    print("selftest: %s" % ("ok" if not failures else "%d corruptions accepted" % failures))
+    return 1 if failures else 0
